@@ -22,6 +22,7 @@ struct Round {
 	bool reg_cancel = false, xg_cancel = false, eg_cancel = false;
 	bool hasReq = false; TxS lastReq;          // last request made by a guard during this round
 	bool reqTagKnown = true;
+	unsigned parts[4] = {0, 0, 0, 0};          // members consulted per guard group (index: 1 root entry guard, 2 exit guard, 3 entry guard; bit 0 the state, bit j injection j)
 };
 
 struct Parsed {
@@ -70,7 +71,7 @@ inline void parse(const Edge& e, Parsed& P) {
 				P.lastGuard = i;
 				if (!inRounds) { inRounds = true; P.reqBefore = req; P.reqBeforeTagKnown = reqTagKnown; }
 				const bool sameGroup = groupOpen && v.sid == groupSid && v.meth == groupMeth;
-				if (sameGroup) { if (!v.inj) groupOpen = false; curGuardEv = i; continue; }
+				if (sameGroup) { if (!v.inj) groupOpen = false; curGuardEv = i; if (cur && v.inj < 8) cur->parts[curGuardKind & 3] |= 1u << v.inj; continue; }
 				groupOpen = v.inj != 0; groupSid = v.sid; groupMeth = v.meth;
 				bool startsRound;
 				if (P.activation) startsRound = VX_HEAD ? (v.sid == ROOT && v.meth == M_EG) : (v.meth == M_EG);
@@ -84,6 +85,7 @@ inline void parse(const Edge& e, Parsed& P) {
 					cur->eg_ev = i; curGuardKind = 3;
 				}
 				curGuardEv = i;
+				if (cur && v.inj < 8) cur->parts[curGuardKind & 3] |= 1u << v.inj;
 				continue;
 			}
 			if (v.inj) continue;
@@ -319,6 +321,12 @@ inline void m03(const Edge& e, const Parsed& P) {
 			if (g.cur != acc) flag(C03, "current-transition-in-guard", e, "round %d: entry guard sees current %d>%d", i + 1, g.cur.o, g.cur.d);
 		}
 	}
+	// a guard of a state with injections is the whole group: every injected guard can veto, so each one is consulted
+	// (nothing is demanded of the members that follow a cancellation inside the same group)
+	for (int i = 0; i < P.nr; ++i) { const Round& r = P.r[i];
+		struct { int ev; bool cancel; int kind; const char* what; } g[3] = {{r.reg_ev, r.reg_cancel, 1, "entry guard of the head"}, {r.xg_ev, r.xg_cancel, 2, "exit guard"}, {r.eg_ev, r.eg_cancel, 3, "entry guard"}};
+		for (int q = 0; q < 3; ++q) { if (g[q].ev < 0 || g[q].cancel) continue; const uint8_t sid = e.tr[g[q].ev].sid; const int k = sid == ROOT ? INJ_ROOT : (sid < N ? INJ_OF[sid] : 0);
+			for (int j = 1; j <= k && j < 8; ++j) if (!(r.parts[g[q].kind] & (1u << j))) { flag(C03, "injected-guard-not-consulted", e, "round %d: the %s of %s%d was consulted without its injection %d of %d (that injection could have vetoed)", i + 1, g[q].what, sid == ROOT ? "R" : "S", sid == ROOT ? 0 : sid, j, k); break; } } }
 	// (c) guard evaluation never runs enter/exit/reenter
 	for (int k = 0; k < P.nlife; ++k) if (P.firstGuard >= 0 && P.life_ev[k] > P.firstGuard && P.life_ev[k] < P.lastGuard) flag(C03, "lifecycle-during-guards", e, "lifecycle ev %d between guard ev %d and %d", P.life_ev[k], P.firstGuard, P.lastGuard);
 	// (d) a request made inside a guard is evaluated by a fresh round
@@ -534,6 +542,11 @@ inline void m11(const Edge& e, const Parsed& P) {
 			if (e.post.prev.d != e.post.active) flag(C11, "history-destination", e, "previousTransition().destination=%d, active=%d", e.post.prev.d, e.post.active);
 			if (!same_od(e.post.prev, W)) flag(C11, "history-origin", e, "previousTransition() = %d>%d, surviving request %d>%d", e.post.prev.o, e.post.prev.d, W.o, W.d);
 			if ((e.post.prev.set != 0) != (W.set != 0) || e.post.prev.tag != W.tag) flag(C11, "history-payload", e, "payload p%d, surviving request p%d", e.post.prev.tag, W.tag);
+			// the surviving request as it was made (the payload its requester passed), not only as the guards were shown it
+			{ int wi = -1; for (int i = first_req_round(P); i < P.nr; ++i) if (!P.r[i].cancelled) wi = i;
+			  const int f = first_req_round(P); bool known = false; TxS made = TX_NONE;
+			  if (wi == f) { known = P.reqBeforeKnown && P.reqBeforeTagKnown && !tx_empty(P.reqBefore); made = P.reqBefore; } else if (wi > f && P.r[wi - 1].hasReq) { known = P.r[wi - 1].reqTagKnown; made = P.r[wi - 1].lastReq; }
+			  if (known && made.o == W.o && made.d == W.d && ((e.post.prev.set != 0) != (made.set != 0) || e.post.prev.tag != made.tag)) flag(C11, "history-payload", e, "previousTransition() carries payload p%d/%d, the surviving request %d>%d was made with p%d/%d", e.post.prev.tag, e.post.prev.set, made.o == NONE8 ? -1 : made.o, made.d, made.tag, made.set); }
 		}
 		return;
 	}
